@@ -382,7 +382,7 @@ func (c *Ctx) possibleStrings(f *Fn, e ast.Expr, subst map[types.Object]ast.Expr
 
 func (c *Ctx) ruleLastResponse() {
 	r := c.R
-	r.Rule("C02-LAST-RESPONSE", "AddResponseBody/AddResponseHeaders: the index used inside the Update closure is the variable assigned `len(v.Responses) - 1` of the value obtained by GetValue(id), tested against -1 with an error return; id is newHTTPInteractionID(d) of the function's own directive and the same id is passed to GetValue and Update", 2)
+	r.Rule("C02-LAST-RESPONSE", "AddResponseBody/AddResponseHeaders: every index into Responses inside the Update closure is, after following locals to their definitions, len(v.Responses)-1 of the value v obtained by GetValue(id) from the collection that is updated; id is the one variable defined by newHTTPInteractionID(d) of the function's own directive and given to GetValue and Update; the Update is reached only with the list known to be non-empty (an edge fact in whatever form: i == -1, n == 0, len(..) > 0 ...)", 2)
 	for _, name := range []string{"Catalog.AddResponseBody", "Catalog.AddResponseHeaders"} {
 		f := c.fn("catalog", name)
 		if f == nil {
@@ -391,96 +391,99 @@ func (c *Ctx) ruleLastResponse() {
 		}
 		pk := f.Pkg
 		d := directiveParam(f)
-		var idObj, vObj, iObj types.Object
-		ast.Inspect(f.Decl.Body, func(n ast.Node) bool {
-			as, ok := n.(*ast.AssignStmt)
-			if !ok || len(as.Rhs) != 1 {
-				return true
-			}
-			rhs := ast.Unparen(as.Rhs[0])
-			if call, ok := rhs.(*ast.CallExpr); ok {
-				if cal := callee(pk, call); cal != nil && cal.Name() == "newHTTPInteractionID" && len(call.Args) == 1 {
-					if id, ok := ast.Unparen(call.Args[0]).(*ast.Ident); ok && pk.TypesInfo.Uses[id] == d {
-						idObj = pk.TypesInfo.Defs[as.Lhs[0].(*ast.Ident)]
-					}
-				}
-			}
-			if ta, ok := rhs.(*ast.TypeAssertExpr); ok {
-				if call, ok := ast.Unparen(ta.X).(*ast.CallExpr); ok && len(call.Args) == 1 {
-					if cal := callee(pk, call); cal != nil && cal.Name() == "GetValue" {
-						if id, ok := ast.Unparen(call.Args[0]).(*ast.Ident); ok && pk.TypesInfo.Uses[id] == idObj && idObj != nil {
-							vObj = pk.TypesInfo.Defs[as.Lhs[0].(*ast.Ident)]
-						}
-					}
-				}
-			}
-			if be, ok := rhs.(*ast.BinaryExpr); ok && be.Op == token.SUB {
-				if k, ok := constInt(pk, be.Y); ok && k == 1 {
-					if call, ok := ast.Unparen(be.X).(*ast.CallExpr); ok && exprString(call.Fun) == "len" && len(call.Args) == 1 {
-						if fld := fieldSel(pk, call.Args[0]); fld != nil && fld.Name() == "Responses" {
-							if id, ok := ast.Unparen(call.Args[0].(*ast.SelectorExpr).X).(*ast.Ident); ok && pk.TypesInfo.Uses[id] == vObj && vObj != nil {
-								iObj = pk.TypesInfo.Defs[as.Lhs[0].(*ast.Ident)]
-							}
-						}
-					}
-				}
-			}
-			return true
-		})
 		where := c.pos(f.Decl.Pos())
-		if idObj == nil || vObj == nil || iObj == nil {
-			r.Bad("C02-LAST-RESPONSE", name, "the chain id := newHTTPInteractionID(d); v := GetValue(id); i := len(v.Responses)-1 is not recognisable: the body/headers may attach to another response or interaction", where)
-			continue
-		}
-		// empty test
-		emptyGuard := false
-		ast.Inspect(f.Decl.Body, func(n ast.Node) bool {
-			if ifs, ok := n.(*ast.IfStmt); ok && returnsNonNilError(pk, ifs.Body.List) {
-				if be, ok := ast.Unparen(ifs.Cond).(*ast.BinaryExpr); ok && be.Op == token.EQL {
-					if id, ok := ast.Unparen(be.X).(*ast.Ident); ok && pk.TypesInfo.Uses[id] == iObj {
-						if k, ok := constInt(pk, be.Y); ok && k == -1 {
-							emptyGuard = true
-						}
-					}
-				}
-			}
-			return true
-		})
-		// closure uses Responses[i] and Update(id,...)
-		okIdx, okUpd := false, false
-		badIdx := ""
+		cf := c.cfgOf(f)
+		nUpd := 0
+		bad := ""
 		ast.Inspect(f.Decl.Body, func(n ast.Node) bool {
 			call, ok := n.(*ast.CallExpr)
-			if !ok {
+			if !ok || len(call.Args) != 2 {
 				return true
 			}
-			if cal := callee(pk, call); cal == nil || cal.Name() != "Update" || len(call.Args) != 2 {
+			cal := callee(pk, call)
+			usel, isSel := ast.Unparen(call.Fun).(*ast.SelectorExpr)
+			if cal == nil || cal.Name() != "Update" || !isSel || !orderedMapType(pk.TypesInfo.TypeOf(usel.X)) {
 				return true
 			}
-			if id, ok := ast.Unparen(call.Args[0]).(*ast.Ident); ok && pk.TypesInfo.Uses[id] == idObj {
-				okUpd = true
+			nUpd++
+			// the key: one variable, defined by newHTTPInteractionID(<own directive>)
+			idCall, k := definingCall(f, call.Args[0])
+			if idCall == nil || k != 0 || len(idCall.Args) != 1 {
+				bad = "the key given to Update is not a variable defined by one call"
+				return true
 			}
+			if g := callee(pk, idCall); g == nil || g.Name() != "newHTTPInteractionID" {
+				bad = "the key given to Update does not come from newHTTPInteractionID"
+				return true
+			}
+			if aid := identOf(stripRef(idCall.Args[0])); aid == nil || pk.TypesInfo.Uses[aid] != d || d == nil {
+				bad = "the interaction id is not derived from the function's own directive"
+				return true
+			}
+			keyObj := pk.TypesInfo.Uses[identOf(call.Args[0])]
+			nIdx := 0
+			var lenStr string
 			ast.Inspect(call.Args[1], func(m ast.Node) bool {
-				if ix, ok := m.(*ast.IndexExpr); ok {
-					if fld := fieldSel(pk, ix.X); fld != nil && fld.Name() == "Responses" {
-						if id, ok := ast.Unparen(ix.Index).(*ast.Ident); ok && pk.TypesInfo.Uses[id] == iObj {
-							okIdx = true
-						} else {
-							badIdx = exprString(ix.Index)
-						}
-					}
+				ix, ok := m.(*ast.IndexExpr)
+				if !ok {
+					return true
 				}
+				if fld := fieldSel(pk, ix.X); fld == nil || fld.Name() != "Responses" {
+					return true
+				}
+				nIdx++
+				base, off, ok := affineOf(f, ix.Index)
+				lc, isCall := base.(*ast.CallExpr)
+				if !ok || off != -1 || !isCall || exprString(lc.Fun) != "len" || len(lc.Args) != 1 {
+					bad = "the closure indexes Responses with `" + exprString(ix.Index) + "`, which is not the last index (len-1) of the list: Body/Headers attach to the wrong response"
+					return true
+				}
+				rsel, isSel := ast.Unparen(lc.Args[0]).(*ast.SelectorExpr)
+				if fld := fieldSel(pk, lc.Args[0]); fld == nil || fld.Name() != "Responses" || !isSel {
+					bad = "the last index is taken from another list than Responses"
+					return true
+				}
+				// whose Responses: GetValue(<same key>) of the updated collection (possibly type-asserted)
+				v := unalias(f, rsel.X)
+				if ta, ok := v.(*ast.TypeAssertExpr); ok {
+					v = unalias(f, ta.X)
+				}
+				gv, ok := v.(*ast.CallExpr)
+				if !ok || len(gv.Args) != 1 {
+					bad = "the list whose last index is used does not come from GetValue"
+					return true
+				}
+				gsel, isSel := ast.Unparen(gv.Fun).(*ast.SelectorExpr)
+				if g := callee(pk, gv); g == nil || g.Name() != "GetValue" || !isSel || c.stableExpr(f, gsel.X, nil) != c.stableExpr(f, usel.X, nil) {
+					bad = "the list whose last index is used is read from another collection than the one that is updated"
+					return true
+				}
+				if kid := identOf(gv.Args[0]); kid == nil || pk.TypesInfo.Uses[kid] != keyObj {
+					bad = "GetValue and Update are given different keys: the index of one interaction's last response is used on another interaction"
+					return true
+				}
+				lenStr = exprString(base)
 				return true
 			})
+			if bad != "" {
+				return true
+			}
+			if nIdx == 0 {
+				bad = "the Update closure does not index Responses"
+				return true
+			}
+			if !cf.establishedAt(call, func(cond ast.Expr, holds bool) bool { return excludesZero(f, cond, holds, lenStr) }, nil) {
+				bad = "the Update is reached without the response list being known to be non-empty: Responses[len-1] panics (or the error for a body without a response is lost)"
+			}
 			return true
 		})
 		switch {
-		case badIdx != "":
-			r.Bad("C02-LAST-RESPONSE", name, "the closure indexes Responses with `"+badIdx+"` instead of the last-index variable: Body/Headers attach to the wrong response", where)
-		case okIdx && okUpd && emptyGuard:
-			r.Ok("C02-LAST-RESPONSE", name, "Responses[len-1] of the interaction whose id derives from d; empty list returns an error", where)
+		case bad != "":
+			r.Bad("C02-LAST-RESPONSE", name, bad, where)
+		case nUpd == 0:
+			r.Bad("C02-LAST-RESPONSE", name, "no Update of the interactions found: the body/headers are not attached", where)
 		default:
-			r.Bad("C02-LAST-RESPONSE", name, fmt.Sprintf("last-response attachment not verified (index=%v update-key=%v empty-guard=%v)", okIdx, okUpd, emptyGuard), where)
+			r.Ok("C02-LAST-RESPONSE", name, "Responses[len-1] of the interaction whose id derives from d; the list is known to be non-empty at the Update", where)
 		}
 	}
 }
